@@ -7,7 +7,7 @@ from sim.seams import Env
 PROPERTY = "C14"
 LEVEL = "exploration"
 SCENARIOS = {"single": 1, "concurrent": 1}
-TIERS = {"quick": {"runs": 20000, "chunk": 60}, "thorough": {"runs": 600000, "chunk": 300}}
+TIERS = {"quick": {"runs": 20000, "chunk": 60}, "thorough": {"runs": 50000000, "wall_s": 600, "chunk": 300, "recheck": 16}}
 RULE = ("one run = 1-4 simulated terminals, each starting in INIT/PRE-OP/SAFE-OP/OP with or "
         "without error flag, each transition taking 0..5 status polls, an error appearing "
         "at a drawn poll or a transition being refused; Terminal.to_operational(target) "
